@@ -30,7 +30,7 @@ pub fn check(c: &Case) -> Checked {
     let inp = input_fn(c.input_seed, c.finite_inputs);
     let path = c.path.as_ref().map(PathBuf::from);
     let (w, n) = window(c);
-    for b in [Backend::Vm, Backend::Wasm] {
+    for &b in Backend::all() {
         let _ = verif::take_misc_events();
         let Ok(mut s) = Session::build(b, &c.src, c.scheduler, path.clone()) else { continue };
         let ich = s.io.input as usize;
